@@ -6,11 +6,11 @@
 (*  every input and every value of the oracles exp / sqrt / pow.           *)
 (*  `_partial`: what is left to cited mathematics is said at the theorem.  *)
 (* ====================================================================== *)
-Require Import Arith Lia List Bool ZArith QArith Qcanon.
+Require Import Arith Lia List Bool ZArith QArith Qcanon Permutation.
 From TK Require Import Mat_Sums Mat_Core Mat_Qc Spectral_KyFan Mat_EigSelect EigSelect Mat_EigSelect_Tie
                        Lap_Model Lap_Spec Lap_Exec Lap_Proof_Lap Lap_Proof_Embed Lap_Proof_Dm
                        Lap_Proof_Total Lap_Proof_Complete Lap_Proof_Order Lap_Proof_DmOrder Lap_Proof_Exec
-                       Lap_Proof_Method Lap_Proof_KyFan Lap_Proof_KyFanQc Lap_Proof_AbsEps.
+                       Lap_Proof_Method Lap_Proof_KyFan Lap_Proof_KyFanQc Lap_Proof_AbsEps Lap_Proof_NbOrder.
 Import ListNotations.
 Local Open Scope list_scope.
 Local Open Scope nat_scope.
@@ -927,3 +927,106 @@ Theorem Lap_abs_eps_skip_refuted :
     ~ le_spec n d (matL heat k nbrs n) Dm Y (fun c => lam (1 + c)).
 Proof. exact le_abs_eps_refuted. Qed.
 Print Assumptions Lap_abs_eps_skip_refuted.
+
+(* 29. WAVE 4 — the ORDER of a neighbour list is free.  The three neighbour searches list the k neighbours of a sample
+       in different orders (cover tree nearest first, brute force std::nth_element order, VP-tree farthest first); the
+       property speaks of "neighbour pairs", not of an order.
+       (a) specification: when every sample's first k entries are the same neighbours in any order (repetitions
+           included: Permutation), W, the degrees and L = D - W are the same, entry by entry (every field);
+       (b) model of the routine (which walks each list in the order given): two successful runs on such lists give the
+           same matrix (triplets summed) and the same degree vector;
+       (c) regression variant compute_laplacian_brk of Lap_Model.v = seeded change C09_4 (`if (heat == 0.0) break;`
+           inside the neighbour loop, "the neighbours are ordered by distance"): every field, every zero test isz,
+           every input on which NO used weight tests zero: the variant IS the shipped routine (same triplet list,
+           same degrees) — the two can differ only on inputs with an exactly vanishing weight, the input class the
+           check now generates (oracle grid without floor, tables with zeros / denormals, kernels whose farthest
+           listed neighbours underflow);
+       (d) refuted on such an input: 3 samples on a line, the far pair's weight is exactly 0; with the lists of
+           sample 2 given farthest first the variant drops the non-zero weight of the near pair: its result differs
+           from its own result on the nearest-first lists (same neighbours), and from L = D - W; on the nearest-first
+           lists it agrees with L: the variant depends on an order that the search interface does not promise. *)
+Theorem Lap_neighbour_order_free :
+  forall (F : Type) (Fo : FieldOps F) (Ff : IsField F) (heat : nat -> nat -> F)
+         (k n : nat) (nbrs nbrs' : list (list nat)),
+    (forall i, i < n -> k <= length (nth i nbrs []) /\
+                        Permutation (firstn k (nth i nbrs [])) (firstn k (nth i nbrs' []))) ->
+    forall r c, r < n -> c < n ->
+      matW heat k nbrs r c = matW heat k nbrs' r c /\
+      degD heat k nbrs n r = degD heat k nbrs' n r /\
+      matL heat k nbrs n r c = matL heat k nbrs' n r c.
+Proof.
+  intros F Fo Ff heat k n nbrs nbrs' H r c Hr Hc.
+  split; [exact (matW_order_free heat k n nbrs nbrs' H r c Hr Hc)|].
+  split; [exact (degD_order_free heat k n nbrs nbrs' H r Hr)|].
+  exact (matL_order_free heat k n nbrs nbrs' H r c Hr Hc).
+Qed.
+Print Assumptions Lap_neighbour_order_free.
+
+Theorem Lap_compute_laplacian_order_free :
+  forall (F : Type) (Fo : FieldOps F) (Ff : IsField F)
+         (dist : nat -> nat -> F) (width : F) (expo : F -> F)
+         (n : nat) (nbrs nbrs' : list (list nat)) (ts ts' : list (@triplet F)) (D D' : list F),
+    length (hd [] nbrs) = length (hd [] nbrs') ->
+    (forall i, i < n -> length (hd [] nbrs) <= length (nth i nbrs []) /\
+                        Permutation (firstn (length (hd [] nbrs)) (nth i nbrs []))
+                                    (firstn (length (hd [] nbrs)) (nth i nbrs' []))) ->
+    compute_laplacian dist width expo n nbrs = LOk (ts, D) ->
+    compute_laplacian dist width expo n nbrs' = LOk (ts', D') ->
+    (forall r c, r < n -> c < n -> mat_of_triplets ts r c = mat_of_triplets ts' r c) /\
+    (forall r, r < n -> nth r D 0%F = nth r D' 0%F).
+Proof. exact @compute_laplacian_order_free. Qed.
+Print Assumptions Lap_compute_laplacian_order_free.
+
+Example Lap_compute_laplacian_order_free_nonvacuous :
+  exists ts D ts' D',
+    length (hd [] brk_far_first) = length (hd [] brk_near_first) /\
+    (forall i, i < 3 -> length (hd [] brk_far_first) <= length (nth i brk_far_first []) /\
+                        Permutation (firstn (length (hd [] brk_far_first)) (nth i brk_far_first []))
+                                    (firstn (length (hd [] brk_far_first)) (nth i brk_near_first []))) /\
+    compute_laplacian brk_dist (qz 1) brk_expo 3 brk_far_first = LOk (ts, D) /\
+    compute_laplacian brk_dist (qz 1) brk_expo 3 brk_near_first = LOk (ts', D') /\
+    brk_far_first <> brk_near_first /\
+    mlist_eqb (mtab 3 3 (mat_of_triplets ts))
+      [[qfrac 1 2; qfrac (-1) 2; qz 0]; [qfrac (-1) 2; qz 1; qfrac (-1) 2]; [qz 0; qfrac (-1) 2; qfrac 1 2]] = true.
+Proof.
+  eexists. eexists. eexists. eexists.
+  split; [reflexivity|]. split; [exact brk_same_neighbours|].
+  split; [vm_compute; reflexivity|]. split; [vm_compute; reflexivity|].
+  split; [discriminate|]. vm_compute. reflexivity.
+Qed.
+
+Theorem Lap_zero_break_agrees :
+  forall (F : Type) (Fo : FieldOps F) (dist : nat -> nat -> F) (width : F) (expo : F -> F) (isz : F -> bool)
+         (n : nat) (nbrs : list (list nat)),
+    (forall i q, i < n -> q < length (hd [] nbrs) ->
+       isz (heat_of dist width expo i (nb_at nbrs i q)) = false) ->
+    compute_laplacian_brk dist width expo isz n nbrs = compute_laplacian dist width expo n nbrs.
+Proof. exact @brk_agrees. Qed.
+Print Assumptions Lap_zero_break_agrees.
+
+Example Lap_zero_break_agrees_nonvacuous :
+  (forall i q, i < 3 -> q < length (hd [] ex_nbrs) ->
+     brk_isz (heat_of (mof ex_dist) (qz 1) ex_expo i (nb_at ex_nbrs i q)) = false) /\
+  exists ts D, compute_laplacian_brk (mof ex_dist) (qz 1) ex_expo brk_isz 3 ex_nbrs = LOk (ts, D).
+Proof.
+  split.
+  - intros i q Hi Hq. cbn in Hq.
+    destruct i as [|[|[|i]]]; try lia; destruct q as [|[|q]]; try lia; vm_compute; reflexivity.
+  - eexists. eexists. vm_compute. reflexivity.
+Qed.
+
+Theorem Lap_zero_break_refuted :
+  exists (nbrs nbrs' : list (list nat)) (n : nat) (ts ts' : list (@triplet Qc)) (D D' : list Qc),
+    length (hd [] nbrs) = length (hd [] nbrs') /\
+    (forall i, i < n -> length (hd [] nbrs) <= length (nth i nbrs []) /\
+                        Permutation (firstn (length (hd [] nbrs)) (nth i nbrs []))
+                                    (firstn (length (hd [] nbrs)) (nth i nbrs' []))) /\
+    compute_laplacian_brk brk_dist (qz 1) brk_expo brk_isz n nbrs = LOk (ts, D) /\
+    compute_laplacian_brk brk_dist (qz 1) brk_expo brk_isz n nbrs' = LOk (ts', D') /\
+    (exists r c, r < n /\ c < n /\ mat_of_triplets ts r c <> mat_of_triplets ts' r c) /\
+    (exists r c, r < n /\ c < n /\
+       mat_of_triplets ts r c <> matL (heat_of brk_dist (qz 1) brk_expo) (length (hd [] nbrs)) nbrs n r c) /\
+    (forall r c, r < n -> c < n ->
+       mat_of_triplets ts' r c = matL (heat_of brk_dist (qz 1) brk_expo) (length (hd [] nbrs)) nbrs n r c).
+Proof. exact brk_refuted. Qed.
+Print Assumptions Lap_zero_break_refuted.
